@@ -13,6 +13,8 @@ META = {
     "note": "",
 }
 META["technique"] += "; " + 'generic pack G on the anchored files (optional-flag shift, closures outliving a loop iteration, single-pass iterables consumed twice, %-templates built from data, in-place writes to class-level / memoised objects, generators mutating what they yielded, memo keys that are projections)'
+META["technique"] += "; class-hierarchy rule for the exceptions raised on purpose by command code against the class the reply path answers"
+META["level"] += " (R7) every exception class of ebd_ipc.py that command / argument code raises derives from the class IpcCommand.__call__ converts into a status reply."
 MOD = "pkgcore.ebuild.ebd_ipc"
 LIB = "data/lib/pkgcore/ebd/ebuild-daemon-lib.bash"
 EFFECTS = {"os.makedirs", "os.unlink", "os.symlink", "os.readlink", "os.link", "os.lchown", "os.chown", "os.chmod", "os.utime", "os.stat", "os.lstat", "os.rename", "os.remove", "os.mkdir",
@@ -238,6 +240,35 @@ def run(ctx):
         ctx.check("R6", pa, bool(init_calls) and bool(choice) and init_calls[0].lineno < choice[0].lineno, "restart-before-fallback-choice", "the restart precedes the per-request choice of the external-install fallback")
     ctx.floor("R6", 2)
 
+    # ---- R7 every error a command can raise on purpose is one the reply path reports as a command failure ---------------
+    # IpcCommand.__call__ turns exactly one class (and its subclasses) into a status reply / a named build failure; anything
+    # else is re-raised as "internal failure" and a nonfatal helper gets no reply line at all.
+    ipc = P.module(MOD)
+    call = P.func(MOD, "IpcCommand.__call__")
+    handled = None
+    for h in (h for t in ast.walk(call.node) if isinstance(t, ast.Try) for h in t.handlers):
+        if h.type is not None and any(isinstance(n, ast.Name) and n.id == "nonfatal" for n in ast.walk(h)):
+            handled = P.resolve_name(ipc, A.unparse(h.type))
+    ctx.require(handled is not None and hasattr(handled, "methods"), "IpcCommand.__call__: the handler that answers a nonfatal command failure was not found")
+
+    def derives(K, target):
+        return any(c is target for c in P.mro(K))
+    raised = {}
+    for f_ in ipc.funcs.values():
+        if f_ is call:
+            continue
+        for r in ast.walk(f_.node):
+            if isinstance(r, ast.Raise) and r.exc is not None:
+                nm = A.unparse(r.exc.func if isinstance(r.exc, ast.Call) else r.exc)
+                K = P.resolve_name(ipc, nm)
+                if hasattr(K, "methods") and K.module is ipc:
+                    raised.setdefault(K.name, (K, f_, r))
+    for nm, (K, f_, r) in sorted(raised.items()):
+        ctx.check("R7", K, derives(K, handled), f"command-error-class:{nm}", f"{nm} (raised in {f_.qual}) derives from {handled.name}, which __call__ answers as a command failure",
+                  f"{nm}, raised on purpose in {f_.qual}, does not derive from {handled.name}: IpcCommand.__call__ treats it as an internal failure — a nonfatal helper gets no status "
+                  f"reply and the build dies with 'internal failure' instead of the helper's own message", node=r)
+    ctx.floor("R7", 3)
+
 
 F = "src/pkgcore/ebuild/ebd_ipc.py"
 MUTANTS = [
@@ -252,4 +283,9 @@ MUTANTS = [
     {"name": "revert-keepdir", "file": F, "old": "            try:\n                open(path, \"w\").close()\n            except OSError as e:\n                raise IpcCommandError(f\"failed creating file: {path!r}: {e.strerror}\")", "new": "            open(path, \"w\").close()", "rule": "R5"},
     {"name": "revert-coroutine-restart", "file": F, "old": "        self._init_coroutines()\n        args = super().parse_args(*args, **kwargs)", "new": "        args = super().parse_args(*args, **kwargs)", "rule": "R6"},
 ]
-TWINS = []
+MUTANTS += [
+    {"name": "unknown-options-not-a-command-error", "file": F, "old": "class UnknownOptions(IpcCommandError):", "new": "class UnknownOptions(IpcError):", "rule": "R7"},
+]
+TWINS = [
+    {"name": "unknown-options-via-intermediate-class", "file": F, "old": "class UnknownOptions(IpcCommandError):", "new": "class _Unknown(IpcCommandError):\n    pass\n\n\nclass UnknownOptions(_Unknown):"},
+]
